@@ -61,6 +61,6 @@ def run(ctx):
                  "(labelled graph, configuration, serializer, entry point, cuts, order)")
     # cases of the known-finding class cannot correspond to the model either (the file is a zstd frame)
     r["corr_fail"] = [c for c in r["corr_fail"] if not seq_zstd(c[1], c[2])]
-    violations, known = codec.verdict("C07", r, known_matchers=[seq_zstd])
+    violations, known = codec.verdict("C07", r, known_matchers=[])
     r.update({"violations": violations, "known": known})
     return r
